@@ -2,6 +2,7 @@ package spine
 
 import (
 	"fmt"
+	"sync"
 
 	"github.com/enbility/spine-go/api"
 	"github.com/enbility/spine-go/model"
@@ -14,6 +15,9 @@ type Feature struct {
 	description *model.DescriptionType
 	role        model.RoleType
 	operations  map[model.FunctionType]api.OperationsInterface
+
+	// guards description
+	muxDescription sync.RWMutex
 }
 
 var _ api.FeatureInterface = (*Feature)(nil)
@@ -45,15 +49,21 @@ func (r *Feature) Operations() map[model.FunctionType]api.OperationsInterface {
 }
 
 func (r *Feature) Description() *model.DescriptionType {
+	r.muxDescription.RLock()
+	defer r.muxDescription.RUnlock()
+
 	return r.description
 }
 
 func (r *Feature) SetDescription(d *model.DescriptionType) {
+	r.muxDescription.Lock()
+	defer r.muxDescription.Unlock()
+
 	r.description = d
 }
 
 func (r *Feature) SetDescriptionString(s string) {
-	r.description = util.Ptr(model.DescriptionType(s))
+	r.SetDescription(util.Ptr(model.DescriptionType(s)))
 }
 
 func (r *Feature) String() string {
